@@ -7,6 +7,7 @@
 import AttrsModel.Proofs.C06Top
 import AttrsModel.Properties.C01
 import AttrsModel.Proofs.SrcDefine
+import AttrsModel.Proofs.SrcSetters
 
 namespace Attrs.C06
 open Attrs.Init (Val Conv Event EventId)
@@ -670,5 +671,22 @@ theorem C06_define_on_setattr_table (o : Src.OnSet) (frozen fbase : Bool) :
     (Src.defineOnSetattr o frozen fbase = .ok Src.oDefault ↔ (fbase = false ∧ frozen = false ∧ o = .unset)) ∧
     (Src.defineOnSetattr o frozen fbase = .error .valueError ↔ (fbase = true ∧ o = .hooks)) := by
   cases o <;> cases frozen <;> cases fbase <;> simp [Src.defineOnSetattr, Src.OnSet.pv, Src.oDefault, Src.oNoOp, Src.oHooks]
+
+/-- **C06_source_setters_convert**: `setters.convert` translated from the current source returns the field's converter
+    applied to the new value — `(value, instance, attrib)` for a `Converter` object, `(value)` for a plain callable —
+    and the value itself for a field without converter; **C06_source_setters_frozen**: `setters.frozen` refuses every
+    assignment with FrozenAttributeError. -/
+theorem C06_source_setters_convert (env : Py.Env) (ext : Py.Ext) (inst attrib nv : Py.PV) (k : Nat) (isConv : Bool)
+    (hc : ext "isinstance" [Py.vFn k, env "Converter"] = Py.vBool isConv) :
+    (ext "getattr" [attrib, Py.vStr "converter"] = Py.vFn k →
+      Gen.setters_convert env ext inst attrib nv =
+        .ok (if isConv then ext "call" [Py.vFn k, nv, inst, attrib] else ext "call" [Py.vFn k, nv])) ∧
+    (ext "getattr" [attrib, Py.vStr "converter"] = Py.vNone →
+      Gen.setters_convert env ext inst attrib nv = .ok nv) :=
+  Src.setters_convert_spec env ext inst attrib nv k isConv hc
+
+theorem C06_source_setters_frozen (env : Py.Env) (ext : Py.Ext) (a b c : Py.PV) :
+    Gen.setters_frozen env ext a b c = .error (.other "FrozenAttributeError") :=
+  Src.setters_frozen_spec env ext a b c
 
 end Attrs.C06
